@@ -196,6 +196,8 @@ TraceNext ==
        \* a chain of nested macro uses must expand (no abort, no hang) to what the innermost body says
        [] ev.ev = "chain" ->
             /\ (IF ev.status = 0 /\ ~ev.timeout /\ ev.ok /\ ev.same THEN TRUE
+                ELSE IF \E d \in KnownDeviations : DevChainApplies(d, ev.depth, ev.status, ev.timeout)
+                THEN Verdict([l |-> l, ev |-> "chain", kind |-> "KNOWN", dev |-> "Dev_DeepMacroChainAborts", why |-> <<ev.depth, ev.status>>])
                 ELSE Verdict([l |-> l, ev |-> "chain", kind |-> "MISMATCH", dev |-> "", why |-> <<ev.depth, ev.status, ev.timeout, ev.err>>]))
             /\ UNCHANGED st
        \* a REP line still answered REPEAT after CX + 3 invocations
